@@ -12,5 +12,7 @@ func All() []*vk.Check {
 		C14(),
 		C15(),
 		C16(),
+		C17(),
+		C19(),
 	}
 }
